@@ -427,7 +427,7 @@ type genOpts struct {
 	allowBad bool
 }
 
-var shapes = []string{"chain", "diamond", "cycle", "self", "starconflict", "random", "random", "mixed", "mixed", "starcycle", "starcycle"}
+var shapes = []string{"chain", "diamond", "cycle", "self", "starconflict", "random", "random", "mixed", "mixed", "starcycle", "starcycle", "starchain", "starchain"}
 
 func genGraph(r *Rng, o genOpts) *ggraph {
 	for {
@@ -451,15 +451,15 @@ func genGraph(r *Rng, o genOpts) *ggraph {
 		// bound by the linker (the run-time copy never overwrites): no ambiguity next to CommonJS stars;
 		// and the run-time copies of "export *" must happen in evaluation order (recorded finding E)
 		if !g.nestedAmb && !(anyAmb && (g.hasStarCycle() || g.hasStarChain() || g.hasCJSStar())) &&
-			(g.allowKnown || (g.cjsStarCopiesInOrder() && !g.entryStarsCJS())) {
+			(g.allowKnown || g.cjsStarCopiesInOrder()) {
 			return g
 		}
 	}
 }
 
 // an entry point that star-exports a CommonJS file has exports that only exist at run time; an
-// ESM-format bundle cannot declare them (inherent to static ES module exports), so the entry's
-// exports would differ by construction
+// ESM-format bundle cannot declare them (inherent to static ES module exports): for such a graph
+// the entry's exports are compared for the cjs and iife bundles only (flag in describe())
 func (g *ggraph) entryStarsCJS() bool {
 	if g.mods[g.entry].kind != modESM {
 		return false
@@ -467,6 +467,33 @@ func (g *ggraph) entryStarsCJS() bool {
 	for _, c := range g.mods {
 		if c.kind != modESM && g.starReaches(g.entry, c.id, map[int]bool{}) {
 			return true
+		}
+	}
+	return false
+}
+
+// Some ES module without any export statement is the target of a named import or of an
+// indirect export.  The linker treats such a file as possibly CommonJS and only warns
+// (known finding C02-C), natively the graph does not link: such a graph is never kept as a
+// deliberately unlinkable one (the repairs can create the shape by removing a file's last export)
+func (g *ggraph) namedTargetExportless() bool {
+	bare := func(t int) bool {
+		md := g.mods[t]
+		return md.kind == modESM && len(g.ownExportNames(md))+len(md.stars) == 0
+	}
+	for _, md := range g.mods {
+		if md.kind != modESM {
+			continue
+		}
+		for _, im := range md.imports {
+			if im.form == "named" && bare(im.target) {
+				return true
+			}
+		}
+		for _, re := range md.reexps {
+			if re.name != "*" && bare(re.target) {
+				return true
+			}
 		}
 	}
 	return false
@@ -616,8 +643,13 @@ func (g *ggraph) hasStarCycle() bool {
 func genGraph1(r *Rng, o genOpts) *ggraph {
 	g := &ggraph{}
 	g.shape = shapes[r.Intn(len(shapes))]
-	if g.shape == "starcycle" && o.allESM {
+	if (g.shape == "starcycle" || g.shape == "starchain") && o.allESM {
 		g.shape = "cycle"
+	}
+	chain := 0
+	if g.shape == "starchain" {
+		// 0 (entry) -> export * -> 1 -> ... -> chain (ES modules), then 1-2 CommonJS leaves
+		chain = r.Range(1, 3)
 	}
 	n := r.Range(2, 5)
 	cyc := 0
@@ -625,6 +657,9 @@ func genGraph1(r *Rng, o genOpts) *ggraph {
 		// 0 = importer, 1..cyc = export-star cycle, then 1-2 CommonJS files, maybe one more ES module
 		cyc = r.Range(2, 3)
 		n = 1 + cyc + r.Range(1, 2) + r.Intn(2)
+	}
+	if chain > 0 {
+		n = 1 + chain + r.Range(1, 2)
 	}
 	if g.shape == "random" || g.shape == "mixed" {
 		n = r.Range(3, o.maxMods)
@@ -649,6 +684,9 @@ func genGraph1(r *Rng, o genOpts) *ggraph {
 			md.kind = modCJS
 		}
 		if cyc > 0 && i > cyc && (i <= cyc+1 || (i == cyc+2 && r.Bool())) {
+			md.kind = modCJS
+		}
+		if chain > 0 && i > chain {
 			md.kind = modCJS
 		}
 		g.mods = append(g.mods, md)
@@ -686,8 +724,8 @@ func genGraph1(r *Rng, o genOpts) *ggraph {
 			md.json = genJSON(r, 2)
 			continue
 		case modCJS:
-			md.cjsAssign = r.Chance(30) && cyc == 0
-			md.cjsEsm = !md.cjsAssign && r.Chance(15)
+			md.cjsAssign = r.Chance(30) && cyc == 0 && chain == 0
+			md.cjsEsm = !md.cjsAssign && r.Chance(15) && cyc == 0 && chain == 0 // a star-exported __esModule marker shows up as a key in the bundle only
 		}
 		for _, nm := range namePool {
 			if r.Chance(40) {
@@ -723,7 +761,7 @@ func genGraph1(r *Rng, o genOpts) *ggraph {
 		switch {
 		case tk == modESM && r.Chance(25):
 			ma.stars = append(ma.stars, b)
-		case tk == modCJS && !g.mods[b].cjsAssign && !o.allESM && r.Chance(20):
+		case tk == modCJS && !g.mods[b].cjsAssign && !g.mods[b].cjsEsm && !o.allESM && r.Chance(20):
 			ma.stars = append(ma.stars, b) // export * from a CommonJS file: names resolved at run time
 		case tk == modESM && r.Chance(12) && !o.allESM:
 			ma.dyn = append(ma.dyn, b)
@@ -752,6 +790,22 @@ func genGraph1(r *Rng, o genOpts) *ggraph {
 		edge(0, 0)
 		for i := 0; i+1 < n; i++ {
 			edge(i, i+1)
+		}
+	case "starchain":
+		// multi-level export * ending in CommonJS leaves: the entry's own exports include names that
+		// only exist at run time (observed by an importer, a requirer and through the global name)
+		for i := 0; i < chain; i++ {
+			g.mods[i].stars = append(g.mods[i].stars, i+1)
+		}
+		for j := chain + 1; j < n; j++ {
+			k := chain
+			if j > chain+1 {
+				k = r.Range(0, chain) // a second leaf hangs anywhere, also directly on the entry
+			}
+			g.mods[k].stars = append(g.mods[k].stars, j)
+		}
+		if r.Chance(40) {
+			g.mods[0].imports = append(g.mods[0].imports, gimport{target: r.Range(1, chain), form: "side"})
 		}
 	case "starcycle":
 		for i := 1; i <= cyc; i++ {
@@ -887,7 +941,7 @@ func genGraph1(r *Rng, o genOpts) *ggraph {
 					if tk == modJSON {
 						cand = nil
 					}
-					if o.allowBad && r.Chance(4) && tk == modESM && len(g.ownExportNames(g.mods[im.target]))+len(g.mods[im.target].stars) > 0 {
+					if o.allowBad && !g.hasCJSStar() && r.Chance(4) && tk == modESM && len(g.ownExportNames(g.mods[im.target]))+len(g.mods[im.target].stars) > 0 {
 						// (a file without any export statement is treated as possibly CommonJS by the
 						// linker and a missing import from it is only a warning: recorded finding)
 						cand = append([]string{}, namePool...) // may be missing or ambiguous
@@ -913,7 +967,7 @@ func genGraph1(r *Rng, o genOpts) *ggraph {
 		if m < 0 {
 			break
 		}
-		if o.allowBad && !g.invalid && !g.problemKnown && g.isESM(0) && (m == 0 || g.reachesStatic(0, m)) && r.Chance(50) {
+		if o.allowBad && !g.hasCJSStar() && !g.invalid && !g.problemKnown && !g.namedTargetExportless() && g.isESM(0) && (m == 0 || g.reachesStatic(0, m)) && r.Chance(50) {
 			g.invalid = true
 			break
 		}
@@ -1236,6 +1290,12 @@ func (g *ggraph) safeNSD(m int, t int, depth int) bool {
 	if g.mods[t].kind != modESM {
 		return true
 	}
+	// in a bundle the namespace object of a module is created at that module's position: while
+	// the module is still an ancestor in progress (import cycle) the object does not exist yet
+	// (natively it does), so it is only read at evaluation time when t has finished evaluating
+	if t != m && !g.evalBefore(t, m) {
+		return false
+	}
 	for _, n := range g.resolvable(t) {
 		if !g.safeReadD(m, gimport{target: t, form: "named", name: n}, depth) {
 			return false
@@ -1301,5 +1361,9 @@ func (g *ggraph) describe() map[string]interface{} {
 	for _, m := range g.mods {
 		paths = append(paths, m.path)
 	}
-	return map[string]interface{}{"shape": g.shape, "entry": g.mods[g.entry].path, "modules": paths, "rootType": g.rootType, "subType": g.subType}
+	d := map[string]interface{}{"shape": g.shape, "entry": g.mods[g.entry].path, "modules": paths, "rootType": g.rootType, "subType": g.subType}
+	if g.entryStarsCJS() {
+		d["entry_dynamic_exports"] = true
+	}
+	return d
 }
